@@ -86,6 +86,7 @@ func cmdLiveness(args []string) int {
 	prefix := fs.Int("prefix", 120, "steps of the asynchronous prefix")
 	only := fs.Int("only", -1, "")
 	nMax := fs.Int("nmax", 7, "")
+	allCuts := fs.Bool("allcuts", false, "cut every directed schedule after every number of steps")
 	cuts := fs.Int("cuts", 0, "per directed schedule: one full run as prefix plus cuts-1 runs cut at a random step")
 	fs.Parse(args)
 	out := newNdjson(*outPath)
@@ -94,7 +95,34 @@ func cmdLiveness(args []string) int {
 	tmpl := map[string]int{}
 	worst := 0.0
 	scNames := scenarioNames()
-	for i := 0; i < *runs+*cuts*len(scNames); i++ {
+	// plan: the random prefixes, then every directed schedule in full and cut short.  -allcuts: cut after EVERY number of steps
+	// 1..length-1 (the state a schedule leaves behind matters at one particular step: a lock just taken, a vote just lost);
+	// otherwise cuts-1 budgets per schedule spread evenly over 3..42, shifted by the seed
+	type planned struct {
+		scen   string
+		budget int
+	}
+	var plan []planned
+	for i := 0; i < *runs; i++ {
+		plan = append(plan, planned{"", 0})
+	}
+	for _, sn := range scNames {
+		plan = append(plan, planned{sn, -1})
+		if *allCuts {
+			for b := 1; b < scenarioLength(sn); b++ {
+				plan = append(plan, planned{sn, b})
+			}
+			continue
+		}
+		for k := 1; k < *cuts; k++ {
+			stride := 40 / (*cuts - 1)
+			if stride < 1 {
+				stride = 1
+			}
+			plan = append(plan, planned{sn, 3 + ((k-1)*stride+int(*seed)*7)%40})
+		}
+	}
+	for i := 0; i < len(plan); i++ {
 		if *only >= 0 && i != *only {
 			continue
 		}
@@ -102,9 +130,8 @@ func cmdLiveness(args []string) int {
 		n := 4 + rnd.Intn(*nMax-3)
 		ws := pickWeights(rnd, n)
 		byz := pickByz(rnd, ws)
-		scen := ""
-		if i >= *runs { // the asynchronous prefix is a directed schedule of the attack library, cut at a random step
-			scen = scNames[(i-*runs)%len(scNames)]
+		scen := plan[i].scen
+		if scen != "" { // the asynchronous prefix is a directed schedule of the attack library
 			n, ws, byz = 4, scenarioWeights(scen), scenarioByz(scen)
 		}
 		cl := newCluster(ws, byz, 1, scen == "" && rnd.Intn(2) == 0)
@@ -117,10 +144,7 @@ func cmdLiveness(args []string) int {
 			r.loop(rnd.Intn(*prefix+1), pol)
 		} else {
 			r.label, r.maxH = "liveness:"+scen, 2
-			budget := -1
-			if (i-*runs)/len(scNames) > 0 {
-				budget = 3 + rnd.Intn(40)
-			}
+			budget := plan[i].budget
 			scenarioTable[scen](&sc{run: r, name: scen, budget: budget})
 		}
 		// bring every correct node to the same height (node sync), the height that will be decided
@@ -190,6 +214,14 @@ func cmdLiveness(args []string) int {
 		for _, pp := range r.adv.ppSeen {
 			preGST[blockName(pp.Block())] = true
 		}
+		// ... including the blocks the Byzantine members made up before stabilisation (first version: only proposals seen in
+		// honest traffic - a Byzantine leader's equivocating proposal, whose COMMIT it had sent to some members only, then
+		// counted as a post-stabilisation proposal: false alarm on the unchanged tree)
+		cl.bodiesMu.Lock()
+		for b := range cl.bodies {
+			preGST[b] = true
+		}
+		cl.bodiesMu.Unlock()
 		out.emit(obj{"ev": "stable", "order": []string{"fifo", "link_fifo", "any"}[i%3], "h": absNum(top), "bound": bound, "crashed": crashedNames, "vmax": absNum(vmax), "faulty": faulty})
 		// the timely fair schedule
 		for iter := 0; iter < 20000 && lr.timeouts <= 2*bound+10; iter++ {
